@@ -206,7 +206,7 @@ pub fn gen_op(rng: &mut Rng, n_rep: usize, n_home: usize, p: &Profile, created: 
             18 => Op::Abort { r, obj: pick_obj(rng, &pop.named()) },
             19 => Op::SchemaAttr { r, idx: rng.below(2) as u8, multi: rng.bool() },
             20 => Op::SchemaClass { r, idx: rng.below(2) as u8 },
-            21 => Op::IllFormed { r, obj: pick_obj(rng, &pop.named()), kind: rng.below(6) as u8 },
+            21 => Op::IllFormed { r, obj: pick_obj(rng, &pop.named()), kind: rng.below(8) as u8 },
             22 => Op::CustomSet { r, obj: pick_obj(rng, &pop.named()), idx: rng.below(2) as u8, with_class: rng.chance(3, 4) },
             23 => Op::ClassRemove { r, obj: pick_obj(rng, &pop.named()), idx: rng.below(2) as u8 },
             24 => Op::Advance { r, secs: *rng.pick(&[0u64, 0, 1, 30, 3600]), nanos: rng.below(3) as u32 },
